@@ -20,7 +20,10 @@ for mode in seeded empty; do
   if [ $mode = seeded ] && [ -d /verif/corpus/$TARGET ]; then cp /verif/corpus/$TARGET/* $W/corpus/ 2>/dev/null; fi
   LOG=$W/log.txt
   # (coroutine stack switches: fake stacks off; the world-based targets grow ~35 KB per run under ASan)
-  ASAN_OPTIONS=detect_stack_use_after_return=0:quarantine_size_mb=64:detect_leaks=0 timeout 7200 $BIN $W/corpus -runs=$RUNS -seed=$SEED -len_control=0 -max_len=$MAXLEN -rss_limit_mb=20000 -artifact_prefix=$W/artifacts/ -print_final_stats=1 >$LOG 2>&1
+  # (-timeout=0: libFuzzer's per-unit timer computes elapsed time with clock_gettime, which the harness
+  #  interposes: an alarm landing while a virtual clock is installed saw "minus three years" and reported
+  #  a time-out; the campaign as a whole stays bounded by the outer `timeout`)
+  ASAN_OPTIONS=detect_stack_use_after_return=0:quarantine_size_mb=64:detect_leaks=0 timeout 7200 $BIN $W/corpus -runs=$RUNS -seed=$SEED -len_control=0 -max_len=$MAXLEN -timeout=0 -rss_limit_mb=20000 -artifact_prefix=$W/artifacts/ -print_final_stats=1 >$LOG 2>&1
   st=$?
   cov=$(grep -E "^#[0-9]+\s+(DONE|pulse|NEW|REDUCE|INITED)" $LOG | tail -1 | sed -E 's/.*cov: ([0-9]+) ft: ([0-9]+) corp: ([0-9]+).*/\1 \2 \3/')
   done_runs=$(grep -E "stat::number_of_executed_units" $LOG | awk '{print $2}')
